@@ -388,13 +388,13 @@ var funcSpecs = []funcSpec{
 	{pkg: "snaps", name: "printRange", sig: "w:io.Writer,opcodes:[]difflib.OpCode->", out: "IO", inout: []string{"w"},
 		extra: []param{{"nocolor", tBool}}},
 	{pkg: "snaps", name: "getUnifiedDiff", sig: "a:string,b:string->string,int,int", out: "IO",
-		extra: []param{{"nocolor", tBool}, {"groupedOpCodes", fnOf(tOpGs, tTexts, tTexts, tInt)}, {"singlelineDiffFn", fnOf(nestedPair([]*ty{tText, tInt, tInt}), tText, tText)}},
+		extra:   []param{{"nocolor", tBool}, {"groupedOpCodes", fnOf(tOpGs, tTexts, tTexts, tInt)}, {"singlelineDiffFn", fnOf(nestedPair([]*ty{tText, tInt, tInt}), tText, tText)}},
 		externs: map[string]param{"colors.NOCOLOR": {"nocolor", tBool}},
 		extFns:  map[string]param{"singlelineDiff": {"singlelineDiffFn", fnOf(nestedPair([]*ty{tText, tInt, tInt}), tText, tText)}}},
 	{pkg: "snaps", name: "buildDiffReport", sig: "inserted:int,deleted:int,diff:string,name:string,line:int->string", out: "IO",
 		extra: []param{{"nocolor", tBool}}},
 	{pkg: "snaps", name: "prettyDiff", sig: "expected:string,received:string,name:string,line:int->string", out: "IO",
-		extra: []param{{"nocolor", tBool}, {"groupedOpCodes", fnOf(tOpGs, tTexts, tTexts, tInt)}, {"singlelineDiffFn", fnOf(nestedPair([]*ty{tText, tInt, tInt}), tText, tText)}},
+		extra:   []param{{"nocolor", tBool}, {"groupedOpCodes", fnOf(tOpGs, tTexts, tTexts, tInt)}, {"singlelineDiffFn", fnOf(nestedPair([]*ty{tText, tInt, tInt}), tText, tText)}},
 		externs: map[string]param{"colors.NOCOLOR": {"nocolor", tBool}},
 		extFns:  map[string]param{"singlelineDiff": {"singlelineDiffFn", fnOf(nestedPair([]*ty{tText, tInt, tInt}), tText, tText)}}},
 	// Config options
@@ -1593,6 +1593,23 @@ func (t *ftr) assign(b *strings.Builder, ind string, s *ast.AssignStmt) {
 		t.funcLit(b, ind, name, fl)
 		return
 	}
+	if fv, ok := t.funcValue(s.Rhs[0]); ok {
+		if t.err != nil {
+			b.WriteString(ind + "sorry\n")
+			return
+		}
+		if s.Tok == token.DEFINE {
+			t.define(b, ind, name, fv)
+			return
+		}
+		old := t.lookup(name)
+		if old == nil || !old.eq(fv.t) {
+			t.stmtFail(b, ind, "assignment of a function of a different type to %s", name)
+			return
+		}
+		fmt.Fprintf(b, "%s%s := %s\n", ind, t.ln(name), fv.s)
+		return
+	}
 	if s.Tok == token.DEFINE {
 		var x ex
 		if pre != nil {
@@ -1649,6 +1666,54 @@ func (t *ftr) assign(b *strings.Builder, ind string, s *ast.AssignStmt) {
 	default:
 		t.stmtFail(b, ind, "assignment operator %s on %s", s.Tok, old.lean())
 	}
+}
+
+// funcValue: an identifier naming a translated function, or a function parameter standing for one,
+// used as a VALUE (`differ := getUnifiedDiff`).  The value is the function with this function's own
+// extra parameters applied; its result is in Option (function values that can be exchanged must have
+// one type: a total function is wrapped in `some`).
+func (t *ftr) funcValue(e ast.Expr) (ex, bool) {
+	id, ok := e.(*ast.Ident)
+	if !ok || t.lookup(id.Name) != nil {
+		return ex{}, false
+	}
+	if p, ok := t.sp.extFns[id.Name]; ok && p.t.k == "func" {
+		var bs, as []string
+		for i := range p.t.params {
+			bs = append(bs, fmt.Sprintf("a%d", i))
+			as = append(as, fmt.Sprintf("a%d", i))
+		}
+		ft := &ty{k: "func", params: p.t.params, res: p.t.res, part: true}
+		return ex{"(fun " + strings.Join(bs, " ") + " => some (" + p.name + " " + strings.Join(as, " ") + "))", ft, false}, true
+	}
+	d, ok := t.funcs[t.sp.pkg+"."+id.Name]
+	if !ok || d.spec.fx != "" || len(d.spec.inout) > 0 {
+		return ex{}, false
+	}
+	var lead []string
+	for _, xp := range d.spec.extra {
+		found := false
+		for _, mine := range t.sp.extra {
+			if mine.name == xp.name && mine.t.lean() == xp.t.lean() {
+				found = true
+			}
+		}
+		if !found {
+			t.fail("function value %s needs parameter %s", id.Name, xp.name)
+			return ex{}, true
+		}
+		lead = append(lead, xp.name)
+	}
+	var bs []string
+	for i := range d.params {
+		bs = append(bs, fmt.Sprintf("a%d", i))
+	}
+	call := d.ns() + leanDefName(id.Name) + " " + strings.Join(append(lead, bs...), " ")
+	if !d.partial {
+		call = "some (" + call + ")"
+	}
+	ft := &ty{k: "func", params: d.params, res: nestedPair(d.rets), part: true}
+	return ex{"(fun " + strings.Join(bs, " ") + " => " + call + ")", ft, false}, true
 }
 
 func (t *ftr) lookupLocal(n string) *ty { return t.env[len(t.env)-1][n] }
@@ -2488,7 +2553,10 @@ func tryTranslate(pkg *pkgInfo, sp *funcSpec, consts map[string]bool, funcs map[
 	return translateFunc(pkg, sp, consts, funcs), ""
 }
 
+var allPkgs map[string]*pkgInfo
+
 func extractFuncs(pkgs map[string]*pkgInfo, F *facts) (string, string) {
+	allPkgs = pkgs
 	snaps := pkgs["snaps"]
 	consts := map[string]bool{}
 	for name, v := range snaps.values {
